@@ -27,7 +27,7 @@ import numpy as np
 
 import subprocess
 
-from harness.common import Ctx, Infra, Part, lean_batch, load_corpus, pmap
+from harness.common import Ctx, Infra, Part, load_corpus, pmap
 
 P = "IrVerif.Extract."
 THEOREMS = [
@@ -41,19 +41,52 @@ THEOREMS = [
     P + "C18_eval",
     P + "C18_cover_of_clone",
     P + "C18_raises_of_uncovered",
+    P + "C18_captures_complete",
+    P + "C18_captures_sound",
 ]
 ASSUMPTIONS = [
     "Python sets are modelled as lists (iteration order of a set is hash order in Python, list order in the "
     "model); the theorems characterise the visited node/value/initializer sets exactly, so the result does "
-    "not depend on that order",
+    "not depend on that order; visited_values is internal state (C18_values_exact) and is tied to the code "
+    "only through the results it determines",
+    "the model transcribes the code after the fix: commits for D34 (analyze_implicit_usage skips the analysed "
+    "root when walking the graph stack) and D47 (_collect_all_external_values collects every value captured "
+    "from outside the nested graph, not only values of parent_graph)",
     "the clone of the view is modelled only as far as it decides raised/ok (keys of the cloner's value map); "
     "that the clone is a faithful, fresh, closed copy is property C13 and is checked here by the oracle only "
-    "(differential)",
-    "a GraphView passed as graph-like has no duplicate nodes; initializer names are unique",
+    "(differential: identity sets disjoint, node-by-node structural equality)",
+    "a GraphView passed as graph-like has no duplicate nodes; initializer names are unique; boundary values "
+    "given by object to a view are not values defined inside a nested graph",
     "C18_eval assumes a topologically sorted, single-assignment source whose producer() pointers agree with "
-    "the nodes' output lists, and interpretations that read only a node's inputs and captured values",
-    "ReferenceEvaluator (onnx) is an external oracle; evaluation is compared only on the evaluable op set",
+    "the nodes' output lists (SourceOK), interpretations that read only a node's inputs and captured values "
+    "(Local), and that every required value without a producer is an initializer (hcov, discharged from the "
+    "success of validation + clone by C18_cover_of_clone under a scoping hypothesis)",
+    "not proved (differential only): that a properly bounded, well scoped, sorted region makes the clone "
+    "stage succeed (converse of C18_raises_of_uncovered); that a value reported for a nested graph is owned by "
+    "no graph nested deeper in it (needs well-scopedness; C18_captures_sound gives 'not owned by that graph')",
+    "ReferenceEvaluator (onnx) is an external oracle; evaluation is compared only on the evaluable op set "
+    "(Add Sub Mul Neg Abs Identity Clip Greater Less Not Where If + a two-output custom op)",
 ]
+
+
+def lean_batch(requests: list[dict]) -> list[dict]:
+    """common.lean_batch, retried while the driver executable is being relinked by a concurrent build"""
+    import time
+
+    from harness import common
+
+    for attempt in range(40):
+        try:
+            return common.lean_batch(requests)
+        except (Infra, OSError) as e:
+            transient = isinstance(e, OSError) or "not built" in str(e) or "rc=" in str(e)
+            if not transient or attempt == 39:
+                if isinstance(e, OSError):
+                    raise Infra(f"model driver not runnable: {e}") from e
+                raise
+            time.sleep(3)
+    raise Infra("unreachable")
+
 
 # --------------------------------------------------------------------------- building real objects
 
@@ -401,15 +434,16 @@ def source_values(spec, objs, obs):
     return evaluate(root, feeds, names)
 
 
-def check_model(part, spec: dict, cuts: list, tag: str, src_vals_cache=None) -> None:
-    """Run all `cuts` = [(ins, outs)] of one built model against model and oracle."""
+def check_model(part, spec: dict, cuts: list, tag: str):
+    """Run all `cuts` = [(ins, outs)] of one built model against model and oracle.
+    Generator: yields the model requests, is sent the model's answers (see `drive`)."""
     objs = build(spec)
     obs = Obs(objs)
     ir = obs.ir
     world = obs.world()
     tj = obs.target_j()
     req = {"m": "extract.runmany", **world, "target": tj, "cuts": [[i, o] for i, o in cuts]}
-    outs_model = lean_batch([req])[0]
+    outs_model = (yield [req])[0]
     if "err" in outs_model:
         part.disagree("model driver rejected the request", {"spec": spec}, outs_model, None)
         return
@@ -422,6 +456,7 @@ def check_model(part, spec: dict, cuts: list, tag: str, src_vals_cache=None) -> 
     tnodes = list(target)
     tgraph = target.graph if isinstance(target, ir.Function) else target
     evaluable = bool(spec.get("evaluable")) and objs["kind"] in ("graph", "function", "view") and spec.get("sorted", True)
+    depth = spec_depth(spec["root"])
     src_vals = None
     wf = spec.get("wellformed", True)
     for (ins, outs), mres in zip(cuts, outs_model):
@@ -438,6 +473,8 @@ def check_model(part, spec: dict, cuts: list, tag: str, src_vals_cache=None) -> 
             outcome=ires["r"] + (":" + mres.get("kind", "") if mres["r"] == "raised" else ""),
             byname=byname,
             nnodes=min(len(ires.get("nodes", [])), 6) if ires["r"] == "ok" else "-",
+            depth=depth,
+            shape=("sorted" if spec.get("sorted", True) else "unsorted"),
         )
         if mcmp != ires:
             part.disagree("extract: model != implementation", case, mres, ires)
@@ -478,6 +515,8 @@ def check_model(part, spec: dict, cuts: list, tag: str, src_vals_cache=None) -> 
             sig = f"extract:{sig_kind}:bounded-but-raised" + (":outer-initializer" if outer_init else "")
             part.fail(sig, "the region is properly bounded (every required value is covered) but extract raised " + ires["py"], {**case, "impl": ires})
             continue
+        if any(brute.free_of_node(n) for n in nodes.values()):
+            part.count("ok_with_needed_nested_capture")
         # exact node set, original order
         exp_nodes = [obs.nid[id(n)] for n in tnodes if id(n) in nodes]
         if ires["nodes"] != exp_nodes:
@@ -722,6 +761,15 @@ def gen_structural(rng: random.Random, n_nodes: int, max_depth: int = 3) -> dict
     return {"vals": vals, "root": root, "target": {"kind": "graph"}, "evaluable": False, "sorted": True, "wellformed": True}
 
 
+def spec_depth(gs: dict) -> int:
+    d = 0
+    for n in gs["nodes"]:
+        for b in n.get("bodies", []):
+            for x in [b[2]] if b[0] == "g" else b[2]:
+                d = max(d, 1 + spec_depth(x))
+    return d
+
+
 def walk_graphs(gs: dict):
     yield gs
     for n in gs["nodes"]:
@@ -859,29 +907,58 @@ def unsort(rng: random.Random, spec: dict) -> dict:
 # --------------------------------------------------------------------------- work items (run in worker processes)
 
 
-def work(item) -> dict:
+def drive(part, gens: list) -> None:
+    """Advance every check generator to its model request, ask the model once for all of them, resume."""
+    import traceback
+
+    def err(e, what):
+        part.disagree("harness error: " + "".join(traceback.format_exception_only(type(e), e)).strip(),
+                      {"item": what, "tb": traceback.format_exc()[-1500:]})
+
+    pending, reqs = [], []
+    for g in gens:
+        try:
+            r = next(g)
+        except StopIteration:
+            continue
+        except (Infra, subprocess.SubprocessError, OSError):
+            raise
+        except Exception as e:  # noqa: BLE001
+            err(e, "prepare")
+            continue
+        pending.append((g, len(reqs), len(r)))
+        reqs += r
+    outs = lean_batch(reqs) if reqs else []
+    for g, a, n in pending:
+        try:
+            g.send(outs[a : a + n])
+        except StopIteration:
+            pass
+        except (Infra, subprocess.SubprocessError, OSError):
+            raise
+        except Exception as e:  # noqa: BLE001
+            err(e, "compare")
+
+
+def work(items) -> dict:
+    """one worker task = a group of (kind, payload) items sharing one call of the model driver"""
     part = Part()
-    kind, payload = item
-    try:
+    gens = []
+    for kind, payload in items:
         if kind == "cuts":
             spec, cuts, tag = payload
             for i in range(0, len(cuts), 400):
-                check_model(part, spec, cuts[i : i + 400], tag)
+                gens.append(check_model(part, spec, cuts[i : i + 400], tag))
         elif kind == "aux":
-            check_aux(part, payload)
-    except (Infra, subprocess.SubprocessError, OSError):
-        raise  # infrastructure problem (driver missing / being rebuilt): exit 2, never a disagreement
-    except Exception as e:  # noqa: BLE001
-        import traceback
-
-        part.disagree("harness error: " + "".join(traceback.format_exception_only(type(e), e)).strip(), {"item": str(item)[:2000], "tb": traceback.format_exc()[-1500:]})
+            gens.append(check_aux(part, payload))
+    drive(part, gens)
     return part
 
 
 # --------------------------------------------------------------------------- auxiliary functions: find / external / mapping / analyze
 
 
-def check_aux(part, payload) -> None:
+def check_aux(part, payload):
     import onnx_ir as ir
     from onnx_ir._convenience import _extractor
     from onnx_ir.analysis import analyze_implicit_usage
@@ -958,7 +1035,7 @@ def check_aux(part, payload) -> None:
                 part.fail(f"analyze:raised:{got['py']}" + (":nonroot" if g is not objs["root"] else ""), "analyze_implicit_usage raised", {"spec": spec, "graph": gid})
             elif got["r"] != exp:
                 part.fail("analyze:captures", "implicit usages != free variables of the nested graphs", {"spec": spec, "graph": gid, "got": got["r"], "expected": exp})
-    outs_model = lean_batch(reqs)
+    outs_model = yield reqs
     for w, impl, out in zip(whats, impls, outs_model):
         part.case([w, spec["vals"], spec["root"], spec["target"]], nontrivial=True, stream="aux", fn=w[0],
                   outcome=impl["r"] if isinstance(impl["r"], str) else "ok")
@@ -981,13 +1058,21 @@ def make_items(ctx: Ctx) -> list:
     rng = ctx.rng
     items = []
     # (A) exhaustive cuts of small models
-    n_small = ctx.pick(10, 40)
+    n_small = ctx.pick(10, 60)
     max_in, max_out = 3, 2
     for k in range(n_small):
         n_nodes = rng.randrange(2, 6)
-        try:
-            spec = gen_evaluable(random.Random(rng.random()), n_nodes, max_depth=1 if n_nodes > 3 else 2)
-        except RuntimeError:
+        spec = None
+        for _try in range(40):
+            try:
+                cand = gen_evaluable(random.Random(rng.random()), n_nodes, max_depth=1 if n_nodes > 3 else 2)
+            except RuntimeError:
+                continue
+            # two models out of three must contain nested graphs (captures are the interesting part)
+            if k % 3 == 0 or spec_depth(cand["root"]) >= 1:
+                spec = cand
+                break
+        if spec is None:
             continue
         kind = ["graph", "function", "view"][k % 3]
         spec = with_target(rng, spec, kind)
@@ -1000,7 +1085,7 @@ def make_items(ctx: Ctx) -> list:
             nm = lambda v: spec["vals"][v]["name"]  # noqa: E731
             items.append(("cuts", (spec, [([nm(a) for a in i], [nm(a) for a in o]) for i, o in cuts], "exhaustive-byname")))
     # (B) random larger models, random cuts
-    for k in range(ctx.pick(150, 1500)):
+    for k in range(ctx.pick(150, 3000)):
         r = random.Random(rng.random())
         if k % 2 == 0:
             try:
@@ -1014,6 +1099,13 @@ def make_items(ctx: Ctx) -> list:
         if r.random() < 0.12:
             spec = unsort(r, spec)
         cuts = [random_cut(r, spec) for _ in range(12)]
+        if spec["target"]["kind"] == "view" and r.random() < 0.3:
+            # a value that no graph owns as first output of a view: `assert parent_graph is not None`
+            spec = dict(spec)
+            spec["vals"] = spec["vals"] + [{"name": f"detached{len(spec['vals'])}", "t": "f"}]
+            det = len(spec["vals"]) - 1
+            cuts.append(([], [det]))
+            cuts.append((list(spec["root"]["inputs"]), [det] + list(spec["root"]["outputs"])))
         items.append(("cuts", (spec, cuts, "random")))
         items.append(("aux", (spec, r.random())))
     return items
@@ -1033,18 +1125,26 @@ def run(ctx: Ctx) -> None:
     ctx.exhaustive_scopes.append(
         f"all cuts (<=3 boundary inputs, <=2 outputs, by object; by name for every second model) of {n_ex} small generated models (2-5 top-level nodes, If nesting)"
     )
-    for part in pmap(work, items):
+    ex = [[it] for it in items if it[0] == "cuts" and it[1][2].startswith("exhaustive")]
+    rest = [it for it in items if not (it[0] == "cuts" and it[1][2].startswith("exhaustive"))]
+    groups = ex + [rest[i : i + 16] for i in range(0, len(rest), 16)]
+    for part in pmap(work, groups):
         ctx.merge(part)
 
 
 def replay(ctx: Ctx, obj: dict) -> None:
+    if obj.get("kind") == "unchecked-obligation":
+        for d in obj.get("correspondence_disagreements", []):
+            if isinstance(d.get("case"), dict):
+                replay(ctx, {"case": d["case"]})
+        return
     case = obj.get("case", obj)
-    spec = case.get("spec")
+    spec = case.get("spec") if isinstance(case, dict) else None
     if spec is None:
         return
     part = Part()
     if "ins" in case:
-        check_model(part, spec, [(case["ins"], case["outs"])], "replay")
+        drive(part, [check_model(part, spec, [(case["ins"], case["outs"])], "replay")])
     else:
-        check_aux(part, (spec, 0))
+        drive(part, [check_aux(part, (spec, 0))])
     ctx.merge(part)
